@@ -16,6 +16,14 @@ CLAIMED = {
     note=NOTE_COMMON + " OS symlink resolution is outside the string theorems.",
     technique="Lean 4 proof over translated source function + exhaustive model/implementation correspondence",
     ref="§5 C06"),
+ "C19": dict(
+    text=("Lean theorems for all tables, cursors, batch sizes k and all sequences of changing tables: each QueryWalker.get "
+          "returns exactly k ids from the table continuing at the cursor and wrapping; an id present throughout is returned "
+          "within floor((N-1)/k)+1 <= ceil(N/k)+1 calls (N = distinct ids seen in the window); age filter exact. Tie: "
+          "real QueryWalker on SQLite with churn and real run_auto_verify (virtual clock) vs the model, plus a cyclic-order oracle."),
+    note=NOTE_COMMON + " SQL ORDER BY/LIMIT semantics trusted; time zone UTC (last_update.timestamp() on naive values).",
+    technique="Lean 4 proof (induction over call sequences) + differential correspondence on SQLite",
+    ref="§5 C19"),
 }
 
 checks = []
